@@ -373,6 +373,81 @@ fn claims_carrier<V: Full>(prop: &mut Property) {
     );
 }
 
+/// typed footers through the string form: what was sealed is what is authenticated, whatever the footer type's
+/// decoder makes of it afterwards
+fn typed_footers<V: crate::backends::Full>(prop: &mut Property) {
+    use paseto_core::tokens::SealedToken;
+    use paseto_core::version::{Local, Public};
+    use paseto_json::Json;
+    use std::collections::{BTreeMap, HashMap};
+    use crate::payload::{Raw, TrimFooter};
+    let name = V::NAME;
+    prop.subs.push(
+        Sub::new(format!("{name}/typed-footers"), 8, "{local, public} x footer type {a byte footer whose decoder trims the surrounding spaces it was sealed with, Json<BTreeMap> and Json<HashMap> with 6 entries (each HashMap instance has its own order), Json<struct>}: seal, to_string, parse with the same type, unseal: claims and footer value come back", move |idx, describe| {
+            let local = idx % 2 == 0;
+            let kind = idx / 2;
+            let mut o = Outcome::new();
+            if describe {
+                o.sample = Some(json!({"backend": name, "local": local, "footer_type": (["TrimFooter", "Json<BTreeMap>", "Json<HashMap>", "Json<struct>"][kind as usize])}));
+            }
+            let ks = keys::keyset::<V>(false, 0);
+            let lk = keys::local::<V>(&ks.locals[2].bytes);
+            let sk = keys::secret::<V>(&ks.secrets[0].bytes);
+            let pk = sk.public_key();
+            let msg = b"typed footer round trip".to_vec();
+            let nv = NoValidation::<Raw>::dangerous_no_validation();
+            let entries: Vec<(String, String)> = (0..6).map(|i| (format!("key-{i}"), format!("value {i}"))).collect();
+            #[derive(serde::Serialize, serde::Deserialize, PartialEq, Clone, Debug)]
+            struct Kid {
+                kid: String,
+                #[serde(default, skip_serializing_if = "Option::is_none")]
+                note: Option<String>,
+            }
+            macro_rules! round {
+                ($footer:expr, $F:ty, $same:expr) => {{
+                    subject(|| -> Result<bool, paseto_core::PasetoError> {
+                        if local {
+                            let s = ops::seal_local_with::<V, _, _>(&lk, Raw(msg.clone()), $footer, b"", &Nonce::Lib)?.to_string();
+                            let t: SealedToken<V, Local, Raw, $F> = s.parse()?;
+                            let u = t.decrypt(&lk, &nv)?;
+                            Ok(u.claims.0 == msg && $same(&u.footer))
+                        } else {
+                            let s = ops::seal_public_with::<V, _, _>(&sk, Raw(msg.clone()), $footer, b"", &Nonce::Lib)?.to_string();
+                            let t: SealedToken<V, Public, Raw, $F> = s.parse()?;
+                            let u = t.verify(&pk, &nv)?;
+                            Ok(u.claims.0 == msg && $same(&u.footer))
+                        }
+                    })
+                }};
+            }
+            let r = match kind {
+                0 => round!(TrimFooter(b"  kid-1 ".to_vec()), TrimFooter, |f: &TrimFooter| f.0 == b"kid-1"),
+                1 => {
+                    let m: BTreeMap<String, String> = entries.iter().cloned().collect();
+                    let m2 = m.clone();
+                    round!(Json(m), Json<BTreeMap<String, String>>, |f: &Json<BTreeMap<String, String>>| f.0 == m2)
+                }
+                2 => {
+                    let m: HashMap<String, String> = entries.iter().cloned().collect();
+                    let m2 = m.clone();
+                    round!(Json(m), Json<HashMap<String, String>>, |f: &Json<HashMap<String, String>>| f.0 == m2)
+                }
+                _ => {
+                    let k = Kid { kid: "key-1".into(), note: None };
+                    let k2 = k.clone();
+                    round!(Json(k), Json<Kid>, |f: &Json<Kid>| f.0 == k2)
+                }
+            };
+            match r {
+                Ok(Ok(true)) => o.class("roundtrip-ok"),
+                other => o.violate_env(format!("{name}/typed-footers/roundtrip"), format!("a token sealed with a typed footer does not come back through its string form: {:?}", other.map(|r| r.map_err(|e| err_kind(&e)))), json!({})),
+            }
+            o
+        })
+        .witness(&["roundtrip-ok"]),
+    );
+}
+
 pub fn build(ctx: &Ctx) -> Property {
     let mut p = Property::new("C01", "exploration");
     add::<crate::backends::V1>(&mut p, ctx);
@@ -381,6 +456,12 @@ pub fn build(ctx: &Ctx) -> Property {
     add::<crate::backends::V3L>(&mut p, ctx);
     add::<crate::backends::V4>(&mut p, ctx);
     add::<crate::backends::V4S>(&mut p, ctx);
+    typed_footers::<crate::backends::V1>(&mut p);
+    typed_footers::<crate::backends::V2>(&mut p);
+    typed_footers::<crate::backends::V3>(&mut p);
+    typed_footers::<crate::backends::V3L>(&mut p);
+    typed_footers::<crate::backends::V4>(&mut p);
+    typed_footers::<crate::backends::V4S>(&mut p);
     claims_carrier::<crate::backends::V1>(&mut p);
     claims_carrier::<crate::backends::V2>(&mut p);
     claims_carrier::<crate::backends::V3>(&mut p);
